@@ -241,6 +241,95 @@ fn c05_structures(ty: Ty) -> Vec<MShape> {
     }
 }
 
+/// the values tried in a slot of dimension d: F_xy, and for measures three real values close to the no-data
+/// constant (-1e39): -9.99e38, -5e38 and -1e38, the threshold of the specification's wording
+fn c05_values(d: usize) -> Vec<f64> {
+    let mut v = f_xy();
+    if d == 3 {
+        v.extend([-9.99e38, -5e38, -1e38]);
+    }
+    v
+}
+
+macro_rules! lying_ranges {
+    ($($name:ident => $variant:ident),*) => {
+        $(
+            /// a user-defined shape of this type that announces a Z range and an M range whatever its type carries
+            struct $name;
+            impl shapefile::record::HasShapeType for $name {
+                fn shapetype() -> shapefile::ShapeType {
+                    shapefile::ShapeType::$variant
+                }
+            }
+            impl shapefile::record::WritableShape for $name {
+                fn size_in_bytes(&self) -> usize {
+                    0
+                }
+                fn write_to<T: std::io::Write>(&self, _dest: &mut T) -> Result<(), shapefile::Error> {
+                    Ok(())
+                }
+            }
+            impl shapefile::record::EsriShape for $name {
+                fn x_range(&self) -> [f64; 2] {
+                    [1.0, 2.0]
+                }
+                fn y_range(&self) -> [f64; 2] {
+                    [3.0, 4.0]
+                }
+                fn z_range(&self) -> [f64; 2] {
+                    [5.0, 9.0]
+                }
+                fn m_range(&self) -> [f64; 2] {
+                    [-7.0, 11.0]
+                }
+            }
+        )*
+        /// (type code, name, header bytes of a file holding one such shape)
+        fn user_range_headers() -> Vec<(i32, &'static str, Vec<u8>)> {
+            let mut v = vec![];
+            $(
+                {
+                    let d = Dev::quiet(vec![]);
+                    {
+                        let mut w = ShapeWriter::new(d.clone());
+                        let _ = w.write_shape(&$name);
+                    }
+                    v.push((shapefile::ShapeType::$variant as i32, stringify!($variant), d.data()));
+                }
+            )*
+            v
+        }
+    };
+}
+lying_ranges!(RPoint => Point, RPolyline => Polyline, RPolygon => Polygon, RMultipoint => Multipoint, RPointM => PointM, RPolylineM => PolylineM, RPolygonM => PolygonM, RMultipointM => MultipointM,
+    RPointZ => PointZ, RPolylineZ => PolylineZ, RPolygonZ => PolygonZ, RMultipointZ => MultipointZ, RMultipatch => Multipatch);
+
+/// header ranges of dimensions the type does not carry are 0, also when a (user-defined) shape announces some
+pub fn user_range_verdicts() -> Vec<(Value, String, String)> {
+    let mut out = vec![];
+    for (code, name, shp) in user_range_headers() {
+        let ty = match Ty::from_code(code) {
+            Some(t) => t,
+            None => continue,
+        };
+        if shp.len() < 100 {
+            out.push((json!({"user_ranges": name}), format!("user-ranges:{}:no-header", name), format!("{} bytes", shp.len())));
+            continue;
+        }
+        let f = |o: usize| f64::from_le_bytes(shp[o..o + 8].try_into().unwrap());
+        let (z, m) = ((f(68), f(76)), (f(84), f(92)));
+        let want_z = if ty.has_z() { (5.0, 9.0) } else { (0.0, 0.0) };
+        let want_m = if ty.has_m_table() { (-7.0, 11.0) } else { (0.0, 0.0) };
+        if z != want_z {
+            out.push((json!({"user_ranges": name}), format!("user-ranges:{}:header-z", name), format!("a user-defined {} announcing Z [5, 9]: header Z range {:?}, expected {:?}", name, z, want_z)));
+        }
+        if ty != Ty::Multipatch && m != want_m {
+            out.push((json!({"user_ranges": name}), format!("user-ranges:{}:header-m", name), format!("a user-defined {} announcing M [-7, 11]: header M range {:?}, expected {:?}", name, m, want_m)));
+        }
+    }
+    out
+}
+
 fn lows() -> Vec<f64> {
     vec![f64::NEG_INFINITY, -f64::MAX, next_up(-f64::MAX), -2.5, -0.0]
 }
@@ -264,7 +353,7 @@ fn enumerate(u: &Unit, ctx: &mut Ctx, tick: &dyn Fn()) {
     let sl = slots(&u.base);
     if u.dmax >= 1 {
         for s in &sl {
-            for e in f_xy() {
+            for e in c05_values(s.dim) {
                 let mut sh = u.base.clone();
                 apply(&mut sh, *s, e);
                 go(sh, 1, ctx);
@@ -275,7 +364,7 @@ fn enumerate(u: &Unit, ctx: &mut Ctx, tick: &dyn Fn()) {
             if !ty.dims()[d] {
                 continue;
             }
-            for e in f_xy() {
+            for e in c05_values(d) {
                 let mut sh = u.base.clone();
                 for s in sl.iter().filter(|s| s.dim == d) {
                     apply(&mut sh, *s, e);
@@ -516,13 +605,26 @@ pub fn check(tier: Tier) -> i32 {
     // the self-test runs the library too: on a tree that panics there it counts as failed (a verdict, if there is one,
     // takes precedence over it)
     let st = catch(|| selftest()).unwrap_or((1, 0));
+    let (mut agg, capped) = (agg, capped);
+    {
+        let mut g = Ctx::new();
+        let v = catch(user_range_verdicts).unwrap_or_else(|p| vec![(json!({"user_ranges": "all"}), format!("user-ranges:{}", p.sig()), p.msg)]);
+        for i in 0..13u64 {
+            g.case_done(0x5eed_0000 + i, true, 14);
+        }
+        g.lib_calls += 13;
+        for (cj, sig, d) in v {
+            g.violation(sig, || cj, || d);
+        }
+        agg.absorb(merge(vec![g]));
+    }
     finish(
         RunInfo {
             prop: "C05",
             tier,
             level: "model_checking",
             engine: "E2 structure x extreme-value placement enumerator; oracle = independent numeric min/max fold + RefCodec for stored boxes and header bytes",
-            rule: "13 types x structures (1-3 parts, 1-5 vertices) and sequences of 2-3 shapes x {no deviation; one slot x every value of F_xy; a whole dimension set to one value of F_xy; every ordered pair of distinct slots of one dimension x low x high values; every pair with values one ulp apart; all vertices identical; sequences of 2-3 shapes with every finalize placement and the extremes in each shape in turn}; plus files of EVERY record count 4..=bound with the minimum in the last-but-one and the maximum in the last record; plus shapes [3, n, 2 points] (multipoint: n) for n in {1025, 4097, 9999, 10000, 10001, 16385} (thorough up to 65537, 10 types) with the extremes of every dimension at the first / middle / last vertex of each part in turn; every vertex of every structure stacked on the vertex before it (same X / Y) while holding the Z resp. M extreme; non-trivial = >=1 deviation or >=2 shapes",
+            rule: "13 types x structures (1-3 parts, 1-5 vertices) and sequences of 2-3 shapes x {no deviation; one slot x every value of F_xy (measures: also -9.99e38, -5e38, -1e38, real values next to the no-data constant); a whole dimension set to one value of F_xy; every ordered pair of distinct slots of one dimension x low x high values; every pair with values one ulp apart; all vertices identical; sequences of 2-3 shapes with every finalize placement and the extremes in each shape in turn}; plus files of EVERY record count 4..=bound with the minimum in the last-but-one and the maximum in the last record; plus shapes [3, n, 2 points] (multipoint: n) for n in {1025, 4097, 9999, 10000, 10001, 16385} (thorough up to 65537, 10 types) with the extremes of every dimension at the first / middle / last vertex of each part in turn; user-defined shapes of all 13 types announcing a Z and an M range (the header keeps 0 for what the type does not carry); every vertex of every structure stacked on the vertex before it (same X / Y) while holding the Z resp. M extreme; non-trivial = >=1 deviation or >=2 shapes",
             bounds: json!({"units": units.len(), "f_xy": f_xy().len(), "lows": lows().len(), "highs": highs().len(), "pair_scope_max_points": tier.pick(6, 9)}),
             exhaustive: true,
             assumptions: vec![
@@ -541,6 +643,9 @@ pub fn check(tier: Tier) -> i32 {
 }
 
 pub fn replay(v: &Value) -> Vec<(String, String)> {
+    if let Some(n) = v.get("user_ranges").and_then(|x| x.as_str()) {
+        return user_range_verdicts().into_iter().filter(|(cj, _, _)| cj.get("user_ranges").and_then(|x| x.as_str()) == Some(n)).map(|(_, s, d)| (s, d)).collect();
+    }
     match Case::from_json(v) {
         None => vec![("bad-replay-file".into(), "cannot parse case".into())],
         Some(case) => match catch(|| observe(&case)) {
